@@ -89,10 +89,40 @@ class SLock:
         self.release()
 
 
+class SRLock(SLock):
+    """scheduler-aware replacement for threading.RLock inside the library (re-entrant: the owner may
+    acquire again without a schedule point)"""
+
+    def __init__(self):
+        SLock.__init__(self)
+        self.depth = 0
+
+    def acquire(self, blocking=True, timeout=-1):
+        if self.owner == _thread.get_ident() and self.depth > 0:
+            self.depth += 1
+            return True
+        ok = SLock.acquire(self, blocking, timeout)
+        if ok:
+            self.owner = _thread.get_ident()
+            self.depth = 1
+        return ok
+
+    def release(self):
+        if self.owner != _thread.get_ident() or self.depth == 0:
+            raise RuntimeError('cannot release un-acquired lock')
+        self.depth -= 1
+        if self.depth == 0:
+            SLock.release(self)
+
+    def _is_owned(self):
+        return self.owner == _thread.get_ident() and self.depth > 0
+
+
 class _ThreadingShim:
     def __init__(self, real):
         self._real = real
         self.Lock = SLock
+        self.RLock = SRLock
 
     def __getattr__(self, n):
         return getattr(self._real, n)
